@@ -8,6 +8,7 @@ import (
 	"time"
 
 	"gopkg.in/typ.v4/lists"
+	"verif/lib/enum"
 	"verif/lib/ev"
 	"verif/lib/fp"
 	"verif/lib/seqmc"
@@ -482,7 +483,7 @@ func main() {
 	N := ev.Pick(r, 5, 6)
 	rl := seqmc.Explore(r, seqmc.Config{Name: "list", New: func() seqmc.Sys { return newLH(H) }})
 	rr := seqmc.Explore(r, seqmc.Config{Name: "ring", New: func() seqmc.Sys { return &rh{N: N} }})
-	famCalls := bigLists(r)
+	famCalls := bigLists(r) + churnList(r)
 	r.Set("large_size_family_calls", famCalls)
 	if !rl.Exhaustive || !rr.Exhaustive {
 		r.MarkCapped()
@@ -633,4 +634,87 @@ func bigLists(r *ev.Run) int {
 		}
 	}
 	return calls
+}
+
+// churnList: ONE list driven through a long history in lock-step with container/list, at most
+// 40 live handles; full traversal comparison every 53 calls.
+func churnList(r *ev.Run) int {
+	n := ev.Pick(r, 60000, 600000)
+	l, rl := lists.New[int](), clist.New()
+	var he []*lists.Element[int]
+	var hr []*clist.Element
+	var g enum.LCG = 11
+	for i := 0; i < n; i++ {
+		op := g.Next(10)
+		if ev.Tracing() {
+			ev.Trace(map[string]any{"family": "churn-list", "step": i, "op": op})
+		}
+		if len(he) == 0 || (op < 4 && len(he) < 40) {
+			switch op % 4 {
+			case 0:
+				he, hr = append(he, l.PushBack(i)), append(hr, rl.PushBack(i))
+			case 1:
+				he, hr = append(he, l.PushFront(i)), append(hr, rl.PushFront(i))
+			case 2:
+				k := g.Next(len(he) + 1)
+				if k == len(he) {
+					he, hr = append(he, l.PushBack(i)), append(hr, rl.PushBack(i))
+				} else {
+					he, hr = append(he, l.InsertBefore(i, he[k])), append(hr, rl.InsertBefore(i, hr[k]))
+				}
+			default:
+				k := g.Next(len(he) + 1)
+				if k == len(he) {
+					he, hr = append(he, l.PushFront(i)), append(hr, rl.PushFront(i))
+				} else {
+					he, hr = append(he, l.InsertAfter(i, he[k])), append(hr, rl.InsertAfter(i, hr[k]))
+				}
+			}
+		} else {
+			a, b := g.Next(len(he)), g.Next(len(he))
+			switch op {
+			case 4, 5, 6:
+				if l.Remove(he[a]) != rl.Remove(hr[a]).(int) {
+					r.Report(ev.Violation{Sig: "family|churn", Msg: fmt.Sprintf("call %d: Remove result differs from container/list", i), Replay: map[string]any{"family": "churn-list", "step": i}})
+					return i
+				}
+				he, hr = append(he[:a], he[a+1:]...), append(hr[:a], hr[a+1:]...)
+			case 7:
+				l.MoveToFront(he[a])
+				rl.MoveToFront(hr[a])
+			case 8:
+				l.MoveBefore(he[a], he[b])
+				rl.MoveBefore(hr[a], hr[b])
+			default:
+				l.MoveAfter(he[a], he[b])
+				rl.MoveAfter(hr[a], hr[b])
+			}
+		}
+		if l.Len() != rl.Len() || (i%53 == 0 && !sameList(l, rl)) {
+			r.Report(ev.Violation{Sig: "family|churn", Msg: fmt.Sprintf("call %d of a long history on one list: contents differ from container/list (Len %d vs %d)", i, l.Len(), rl.Len()), Replay: map[string]any{"family": "churn-list", "step": i}})
+			return i
+		}
+	}
+	return n
+}
+
+func sameList(l *lists.List[int], rl *clist.List) bool {
+	e, re := l.Front(), rl.Front()
+	for re != nil {
+		if e == nil || e.Value != re.Value.(int) {
+			return false
+		}
+		e, re = e.Next(), re.Next()
+	}
+	if e != nil {
+		return false
+	}
+	e, re = l.Back(), rl.Back()
+	for re != nil {
+		if e == nil || e.Value != re.Value.(int) {
+			return false
+		}
+		e, re = e.Prev(), re.Prev()
+	}
+	return e == nil
 }
